@@ -157,7 +157,7 @@ def run(tier, seed):
 
     SIGNAME = {signal.SIGINT: "int", signal.SIGTERM: "term", signal.SIGHUP: "hup"}
 
-    def add(name, text, bound_s, cleanups, sig=None, args=None, points=None, expect_fail=None, allow_left=False, body_err=None, env=None, tty_cols=None):
+    def add(name, text, bound_s, cleanups, sig=None, args=None, points=None, expect_fail=None, allow_left=False, body_err=None, env=None, tty_cols=None, more_signals=None, start_ignoring=None):
         """cleanups: 2 = every cleanup succeeds both times, 1 = the initial cleanups fail, None = not judged.
         body_err: does the play proper end with an error other than a cancellation (None = depends on the schedule).
         The expected number of cleanup runs and the expected result come from the life-cycle model (Model/Life.lean,
@@ -178,7 +178,7 @@ def run(tier, seed):
                     if expect_fail is not None and expect_fail != mf:
                         kdis.append({"life-model": ans, "scenario": name, "expected by the scenario": expect_fail})
                     want_fail = mf
-        faults.append({"name": name, "play": e2e.Play(text, args=args, timeout=bound_s + 12, sigspec=sig, points=points, keep=True, env=env, tty_cols=tty_cols),
+        faults.append({"name": name, "play": e2e.Play(text, args=args, timeout=bound_s + 12, sigspec=sig, points=points, keep=True, env=env, tty_cols=tty_cols, more_signals=more_signals, start_ignoring=start_ignoring),
                        "bound": bound_s, "cleanups": want_cl, "expect_fail": want_fail, "allow_left": allow_left})
 
     add("SIGINT during a long action", e2e_play(), 8, 2, sig=(1.0, signal.SIGINT), expect_fail=True)
@@ -229,6 +229,14 @@ def run(tier, seed):
             e2e_play(scene_x="quick", spot="echo 'val 9'; sleep 30", audience="audience\n  bob watches a v\n  bob audits throughout\n  bob expects always: t < 0\nend\n").replace(
                 "  spotlight ", "  signal v scalar at (?P<ts_now>)val (?P<scalar>\\d+$)\n  spotlight "),
             10, 2, expect_fail=True, body_err=True, tty_cols=cols)
+    # a second signal during the graceful shutdown means "terminate forcefully" (the narration says so): the process
+    # must be gone shortly after, also when that signal was ignored when it was started (`shakespeare … &` in a
+    # script, nohup).  Cleanup and leftovers are not judged: the forceful end is upstream's documented choice.
+    for sg, nm in ((signal.SIGINT, "SIGINT"), (signal.SIGHUP, "SIGHUP")):
+        for ign in (False, True):
+            add("a second %s during the graceful shutdown%s" % (nm, ", the signal ignored when the process started" if ign else ""),
+                e2e_play(cleanup="sleep 3; " + CLEAN), 10, None, sig=(1.0, sg), more_signals=[(0.4, sg)], start_ignoring=[sg] if ign else None,
+                expect_fail=None, allow_left=True)
     add("a completed action left a process in the background", e2e_play(scene_x="bg", extra_actions="  :bg (setsid sleep 7 >/dev/null 2>&1 &) ; true"), 8, 2, expect_fail=False, allow_left=True, body_err=False)
     add("SIGINT while the conductor is between shutdown stages", e2e_play(scene_x="quick"), 8, 2, sig=(0.45, signal.SIGINT), points="conduct.stage2=sleep:600ms")
     add("SIGTERM while the collector is still draining", e2e_play(scene_x="quick"), 8, 2, sig=(0.5, signal.SIGTERM), points="collector.loop=sleep:150ms")
